@@ -980,7 +980,31 @@ func (w *world) unknownRef() ref {
 			}
 		}
 	}
-	switch rnd.Intn(7) {
+	// an existing characteristic of a: ids that ALIAS it under a lossy id handling (truncation to 8/16/32 bits,
+	// packing aid and iid into one word, swapping them) must still be unknown
+	var some uint64
+	for _, s := range a.Services {
+		if len(s.Characteristics) > 0 {
+			some = s.Characteristics[rnd.Intn(len(s.Characteristics))].ID
+		}
+	}
+	switch rnd.Intn(12) {
+	case 7:
+		sh := []uint{8, 16, 32, 33, 48, 63}[rnd.Intn(6)]
+		return ref{aid: a.ID + 1<<sh, iid: some, why: "aid-aliases-existing-modulo-2^k"}
+	case 8:
+		sh := []uint{8, 16, 32, 33, 48, 63}[rnd.Intn(6)]
+		return ref{aid: a.ID, iid: some + 1<<sh, why: "iid-aliases-existing-modulo-2^k"}
+	case 9:
+		// iid + (m << 32) with m a subset of the aid's bits: collides when (aid<<32 | iid) is used as a key
+		return ref{aid: a.ID, iid: some + a.ID<<32, why: "iid-carries-aid-bits"}
+	case 10:
+		if _, exists := w.byID[[2]uint64{some, a.ID}]; some != a.ID && !exists && !w.isServiceID(some, a.ID) {
+			return ref{aid: some, iid: a.ID, why: "aid-iid-swapped"}
+		}
+		return ref{aid: a.ID + 1<<32, iid: some + 1<<32, why: "both-alias-modulo-2^32"}
+	case 11:
+		return ref{aid: a.ID + 1<<32, iid: some + 1<<32, why: "both-alias-modulo-2^32"}
 	case 0:
 		return ref{aid: w.maxAid + 1 + uint64(rnd.Intn(5)), iid: 1 + uint64(rnd.Intn(20)), why: "unknown-aid"}
 	case 1:
@@ -1983,4 +2007,18 @@ func formatsSeen() map[string]bool {
 		}
 	}
 	return m
+}
+
+// isServiceID reports whether (aid, iid) names a service (those are "iid-of-a-service" cases, a different kind).
+func (w *world) isServiceID(aid, iid uint64) bool {
+	for _, a := range w.accs {
+		if a.ID == aid {
+			for _, s := range a.Services {
+				if s.ID == iid {
+					return true
+				}
+			}
+		}
+	}
+	return false
 }
